@@ -46,4 +46,29 @@ theorem exists_unique_p (W : ℝ) (hW : 0 ≤ W) : ∃! p : ℝ, 1 ≤ p ∧ Wf 
   rintro q ⟨hq, hqW⟩
   exact (p_unique W p q hp.1 hq hpW hqW).symm
 
+/-- for `p ≥ 1`: `log10 p ≤ Wf p ≤ 2·log10 p` (the factor `2p/(p+1)` lies in `[1, 2)`) -/
+theorem Wf_bounds (p : ℝ) (hp : 1 ≤ p) : Real.logb 10 p ≤ Wf p ∧ Wf p ≤ 2 * Real.logb 10 p := by
+  rw [Wf_real]
+  have hl : 0 ≤ Real.logb 10 p := Real.logb_nonneg (by norm_num) hp
+  have hpos : (0 : ℝ) < p + 1 := by linarith
+  have h1 : 1 ≤ 2 * p / (p + 1) := by rw [le_div_iff₀ hpos]; linarith
+  have h2 : 2 * p / (p + 1) ≤ 2 := by rw [div_le_iff₀ hpos]; linarith
+  constructor
+  · calc Real.logb 10 p = 1 * Real.logb 10 p := by ring
+      _ ≤ 2 * p / (p + 1) * Real.logb 10 p := mul_le_mul_of_nonneg_right h1 hl
+  · exact mul_le_mul_of_nonneg_right h2 hl
+
+/-- **the bracket of the fallback solver** (fix 16): the solution of `Wf p = W`, `p ≥ 1`, lies in `[10^(W/2), 10^W]` -/
+theorem p_bracket (W p : ℝ) (hp : 1 ≤ p) (h : Wf p = W) : (10 : ℝ) ^ (W / 2) ≤ p ∧ p ≤ (10 : ℝ) ^ W := by
+  obtain ⟨hlo, hhi⟩ := Wf_bounds p hp
+  rw [h] at hlo hhi
+  have hp0 : 0 < p := by linarith
+  have hb : (1 : ℝ) < 10 := by norm_num
+  constructor
+  · have : W / 2 ≤ Real.logb 10 p := by linarith
+    calc (10 : ℝ) ^ (W / 2) ≤ (10 : ℝ) ^ Real.logb 10 p := Real.rpow_le_rpow_of_exponent_le (by norm_num) this
+      _ = p := Real.rpow_logb (by norm_num) (by norm_num) hp0
+  · calc p = (10 : ℝ) ^ Real.logb 10 p := (Real.rpow_logb (by norm_num) (by norm_num) hp0).symm
+      _ ≤ (10 : ℝ) ^ W := Real.rpow_le_rpow_of_exponent_le (by norm_num) hlo
+
 end FlowCal.C18
